@@ -155,7 +155,23 @@ def view(samples, model, stats=True):
             out["v1"] = attempt(lambda: pairs(samples.values_at_sigma(1.0, as_instance=False)))
             out["e1"] = attempt(lambda: pairs(samples.errors_at_sigma(1.0, as_instance=False)))
             out["e3"] = attempt(lambda: pairs(samples.errors_at_sigma(3.0, as_instance=False)))
+            out["v3"] = attempt(lambda: pairs(samples.values_at_sigma(3.0, as_instance=False)))
+            out["statin"] = attempt(lambda: stat_inputs(samples))
     return out
+
+
+def stat_inputs(samples):
+    """what the summary statistics take from outside the modelled code: the arrangement np.argsort gives each parameter
+    column (not stable: only checked to BE a sorting permutation), the libm quantile levels, the configured sample size"""
+    import math
+    cols = samples.parameters_extract
+    qs = []
+    for sigma in (1.0, 3.0):
+        low = (1 - math.erf(sigma / math.sqrt(2))) / 2
+        qs += [fh(low), fh(1 - low)]
+    return {"argsort": [[int(i) for i in np.argsort(np.atleast_1d(col))] for col in cols], "qs": qs,
+            "ucs": int(conf.instance["general"]["output"]["unconverged_sample_size"]),
+            "total": int(samples.total_samples)}
 
 
 def view_summary(summary, model):
@@ -539,8 +555,34 @@ def run_fit_case(c):
     return out
 
 
+def run_quant_case(c):
+    """quantile(x, q, weights) called directly, one call per level (as median_pdf / values_at_sigma do)"""
+    from autofit.non_linear.samples.pdf import quantile
+    xs = [unhex(x) for x in c["xs"]]
+    ws = [unhex(x) for x in c["ws"]]
+    outs = []
+    with np.errstate(all="ignore"):
+        for q in c["qs"]:
+            outs.append(attempt(lambda: fh(quantile(x=np.asarray(xs) if c.get("array") else xs, q=unhex(q),
+                                                    weights=np.asarray(ws) if c.get("array") else ws)[0])))
+    return {"outs": outs, "argsort": [int(i) for i in np.argsort(np.atleast_1d(xs))]}
+
+
+def run_pdf_case(c):
+    """SamplesPDF statistics of an in-memory sample set (no persistence): median_pdf, values / errors at 1 and 3 sigma"""
+    priors = make_priors(c["npri"], c.get("kinds", ["u"]))
+    model = build(c["tree"], priors)
+    samples = make_samples(c, model)
+    v = view(samples, model)
+    return {"orig": {k: v[k] for k in ("pl", "ll", "w", "best", "median", "v1", "e1", "v3", "e3", "statin", "cols")}}
+
+
 def run_case(c):
     kind = c.get("kind", "samples")
+    if kind == "quant":
+        return run_quant_case(c)
+    if kind == "pdf":
+        return run_pdf_case(c)
     if kind == "samples":
         return run_samples_case(c)
     if kind == "dbseq":
